@@ -86,7 +86,7 @@ theorem published_before_end_is_in_window {c : Cfg} {s s' : St} {ls : List Label
 /-- non-vacuity of the hypotheses above: a run with an open window that then ends -/
 example : ∃ (c : Cfg) (s s' : St) (ls : List Label), Reachable c s ∧ Run c s ls s' ∧
     (s.subs 0).endAt = none ∧ (s'.subs 0).endAt = some 0 := by
-  let c : Cfg := ⟨fun _ => [0], fun _ => [0]⟩
+  let c : Cfg := { subTopics := fun _ => [0], pubTopics := fun _ => [0] }
   let ls : List Label := [.subCall 0, .subAccept 0 [] .ok, .cancel 0, .subSeeCancel 0, .unsubAccept 0]
   have h0 : Reachable c (GoSSE.Model.Joe.init true) := Reachable.init (by simp [IsInit, GoSSE.Model.Joe.init])
   match hr : run c (GoSSE.Model.Joe.init true) ls with
